@@ -113,6 +113,7 @@ type gen struct {
 	// counters filled while generating (probes)
 	overwrites, straddles, restores, restoresBelow, multi int
 	removedOne                                            bool
+	noWipeShared                                          bool // never wipe a replica whose Tan db is shared
 	imports                                               int
 }
 
@@ -383,6 +384,22 @@ func (g *gen) next(havePending bool, allowReopen bool) wop {
 		return g.live(p) && m.Floor > 0
 	}
 	noBoot := func(p raftio.NodeInfo) bool { return g.live(p) && !g.model.Get(p).HasBoot }
+	canWipe := func(p raftio.NodeInfo) bool {
+		if !g.live(p) {
+			return false
+		}
+		if g.noWipeShared {
+			for _, q := range g.pairs {
+				if q != p && q.ShardID%16 == p.ShardID%16 {
+					return false
+				}
+			}
+		}
+		return true
+	}
+	if _, ok := g.pick(canWipe); !ok {
+		g.removedOne, g.imports = true, 99
+	}
 	if _, ok := g.pick(canSnap); ok {
 		w[opSaveSnapshots] = 5
 	}
@@ -464,7 +481,7 @@ func (g *gen) next(havePending bool, allowReopen bool) wop {
 			op.boot.Addresses = map[uint64]string{1: "a1", 2: fmt.Sprintf("b%d", g.seq)}
 		}
 	case opImport:
-		id, _ := g.pick(g.live)
+		id, _ := g.pick(canWipe)
 		m := g.model.Get(id)
 		op.id = id
 		var s uint64
@@ -481,7 +498,7 @@ func (g *gen) next(havePending bool, allowReopen bool) wop {
 		op.snap.Imported = true
 		g.imports++
 	case opRemoveNode:
-		id, _ := g.pick(g.live)
+		id, _ := g.pick(canWipe)
 		op.id = id
 		g.removedOne = true
 	case opObsolete:
